@@ -254,6 +254,18 @@ class ClsSourceTruthyClose(ClsSource):
         return True
 
 
+class CloseFailure(Exception):
+    """What a source raises from aclose() in the `clsraiseclose` flavour."""
+
+
+class ClsSourceRaisingClose(ClsSource):
+    """... whose aclose() fails (after the source has released what it held): the others are closed all the same"""
+
+    async def aclose(self):
+        await super().aclose()
+        raise CloseFailure(f"source {self.idx}")
+
+
 class ClsSourceNoClose(_ClsBase):
     """... without aclose: nothing to release"""
 
@@ -363,6 +375,9 @@ def make_source(flavour, rec, idx, items):
     """Return (object to pass to the tool, handle exposing .released/.state)."""
     if flavour == "cls":
         s = ClsSource(rec, idx, items)
+        return s, s
+    if flavour == "clsraiseclose":
+        s = ClsSourceRaisingClose(rec, idx, items)
         return s, s
     if flavour == "clstruthy":
         s = ClsSourceTruthyClose(rec, idx, items)
